@@ -138,6 +138,10 @@ def cases(tier: str, rng: random.Random) -> List[Case]:
             out.append(std_case(("LazyV", N(0), True), linked(d, bad_at=0 if d else None), m, lazy=rec_node, tag="c:rec", fuel=8 * d + 16))
             out.append(std_case(rec_union[0], nested(d, G.I(7)), m, lazy=rec_union, tag="c:rec", fuel=6 * d + 12))
             out.append(std_case(rec_union[0], nested(d, G.S("x")), m, lazy=rec_union, tag="c:rec", fuel=6 * d + 12))
+    # optionals whose none_validator is the user's own
+    for v_, x_ in G.custom_none_cases():
+        for m_ in ("sync", "async"):
+            out.append(std_case(v_, x_, m_, tag="a:custom-none"))
     return out
 
 
@@ -192,17 +196,28 @@ def oracle(c: Case) -> Optional[dict]:
                 and len(got.err_type.variants) == len(errs) and all(_inv_eq(ctx, a, b) for a, b in zip(got.err_type.variants, errs))
             return None if ok else {"signature": "C05:union-errs", "what": f"expected every variant's error in order, got {got!r}"}
         if kind == "OptionalV":
-            if x is None:
+            custom_none = c.v[1] != ("NoneV", None)
+            if x is None and not custom_none:
                 ok = type(got) is Valid and got.val is None
                 return None if ok else {"signature": "C05:optional-none", "what": f"Optional(None) returned {got!r}"}
+            if custom_none:
+                # the none_validator it was built with decides what counts as None - it, not a default one
+                rn = _call(v.none_validator, c.mode, x)
+                if rn.is_valid:
+                    ok = type(got) is Valid and got.val is None
+                    return None if ok else {"signature": "C05:optional-none",
+                                            "what": f"the optional's own none_validator accepts {x!r}; expected Valid(None), got {got!r}"}
             r = _call(v.non_none_validator, c.mode, x)
             if r.is_valid:
                 ok = type(got) is Valid and _same(ctx, got.val, r.val)
             else:
                 ok = type(got) is Invalid and type(got.err_type) is UnionErrs and got.validator is v and got.value is x \
-                    and len(got.err_type.variants) == 2 and _inv_eq(ctx, got.err_type.variants[1], r) \
-                    and type(got.err_type.variants[0].err_type) is TypeErr
-            return None if ok else {"signature": "C05:optional-inner", "what": f"Optional disagrees with its inner validator ({r!r}): {got!r}"}
+                    and len(got.err_type.variants) == 2 and _inv_eq(ctx, got.err_type.variants[1], r)
+                if ok and custom_none:
+                    ok = _inv_eq(ctx, got.err_type.variants[0], rn) and got.err_type.variants[0].validator is v.none_validator
+                elif ok:
+                    ok = type(got.err_type.variants[0].err_type) is TypeErr
+            return None if ok else {"signature": "C05:optional-inner", "what": f"Optional disagrees with its none / inner validators ({r!r}): {got!r}"}
         if kind == "MaybeV":
             if x is nothing:
                 ok = type(got) is Valid and got.val is nothing
@@ -290,6 +305,19 @@ def check_result_map() -> List[dict]:
             if not (type(rr) is Valid and made and rr.val is made[-1]):
                 bad.append({"signature": "C05:valid-map", "kind": "oracle",
                             "what": f"Valid({val!r}).map(f) holds {getattr(rr, 'val', rr)!r} ({type(getattr(rr, 'val', rr)).__name__}), f returned {made[-1] if made else None!r} ({type(made[-1]).__name__ if made else None})",
+                            "replay_case": {"direct": "result-map"}})
+        # a function that itself returns a result (another validator used as the function, the Valid constructor):
+        # the payload is what it returned - a result inside a result
+        from koda_validate import IntValidator as _IV, StringValidator as _SV, always_valid as _AV
+        for fn in (_IV(), _SV(), _AV, Valid, (lambda z: Invalid(TypeErr(int), z, _AV))):
+            try:
+                inner = fn(val)
+                rr = Valid(val).map(fn)
+            except Exception:  # noqa
+                continue
+            if not (type(rr) is Valid and type(rr.val) is type(inner) and rr.val == inner):
+                bad.append({"signature": "C05:valid-map", "kind": "oracle",
+                            "what": f"Valid({val!r}).map(f) with f returning the result {inner!r} gives {rr!r}, not Valid of that result",
                             "replay_case": {"direct": "result-map"}})
         # the result that was mapped is still the result of the validation it came from
         if r0.val is not val:
